@@ -58,7 +58,10 @@ def main(argv):
     from concurrent.futures import ThreadPoolExecutor
 
     def work(entry):
-        return entry, run_one(entry["pid"], entry["edits"], repo_src, entry.get("tier", "quick"))
+        try:
+            return entry, run_one(entry["pid"], entry["edits"], repo_src, entry.get("tier", "quick"))
+        except RuntimeError as e:
+            return entry, (99, str(e))
 
     with ThreadPoolExecutor(max_workers=int(os.environ.get("PYVC_JOBS", "8"))) as ex:
         for entry, (rc, out) in ex.map(work, jobs):
